@@ -74,13 +74,31 @@ fn run(prop: &str, tier: Tier) -> i32 {
         }
     };
     let mut run = Run::new(prop, engine, tier);
-    let mut st = f(&mut run);
+    // The broad, linear families run FIRST: they are cheap, and a wall cap that cuts a run short
+    // must cut the deep end of the exponential sweeps, not these.
+    let mut pre = mc::report::Stats::new();
+    let mut rule_suffix = String::new();
     if engine == "serve_mc" {
         // histories of two requests on one fresh thread (state must not survive a call)
         let pairs = s::run_pairs(prop);
         run.extra.insert("request_pair_histories".into(), serde_json::json!(pairs.evaluations));
-        run.rule.push_str("; plus every ordered pair (A, B) over a set of requests reaching every response class (incl. the multipart-overflow 413), run as 'A then B' on a fresh OS thread, B judged by the same oracle (serve() must not keep state between calls)");
-        st.merge(pairs);
+        rule_suffix.push_str("; plus every ordered pair (A, B) over a set of requests reaching every response class (incl. the multipart-overflow 413), run as 'A then B' on a fresh OS thread, B judged by the same oracle (serve() must not keep state between calls)");
+        pre.merge(pairs);
+        // every kind of entity against every kind of request (rich alphabets of all dimensions)
+        let zoo = s::run_zoo(prop, tier);
+        run.extra.insert("zoo_executions".into(), serde_json::json!(zoo.evaluations));
+        rule_suffix.push_str("; plus the 'zoo': entities over {12 lengths} x {13 entity tags incl. comma / semicolon / '*' / backslash / obs-text / empty / 300 bytes, strong and weak} x {8 modification times incl. the epoch, +0.5 s, +1 ns, 2100} x {8 entity header sets} (quick: a third of that product) against ~50 requests derived from each entity's own length and validators");
+        pre.merge(zoo);
     }
+    if engine == "stream_mc" {
+        // every chunk size x coding x waker discipline x payload against a fixed set of history shapes
+        let zoo = mc::stream_mc::stream_zoo(prop, tier);
+        run.extra.insert("stream_zoo_histories".into(), serde_json::json!(zoo.evaluations));
+        rule_suffix.push_str("; plus the streaming 'zoo': 18 history shapes (every operation incl. abort and body drop; write sizes 1, c-1, c, c+1, 3c+1, 70001) x chunk size {1,2,3,7,8,19,255,256,512,1000,4096,16384,65536} x {identity, gzip level 0/1/6/9} x {same waker, fresh waker per poll} x {incompressible, 'a'-run}");
+        pre.merge(zoo);
+    }
+    let mut st = f(&mut run);
+    run.rule.push_str(&rule_suffix);
+    st.merge(pre);
     run.finish(st)
 }
